@@ -3010,19 +3010,29 @@ impl QueryJob {
                                 let mut deleted = 0;
                                 let mut inserted = 0;
 
-                                for result_tuple in results {
-                                    // Build bindings from query result: var_name → Value
-                                    let bindings: std::collections::HashMap<String, Value> =
-                                        all_vars
-                                            .iter()
-                                            .enumerate()
-                                            .filter_map(|(idx, var)| {
-                                                result_tuple
-                                                    .get(idx)
-                                                    .map(|v| (var.clone(), v.clone()))
-                                            })
-                                            .collect();
+                                // Build bindings from query result: var_name → Value
+                                let all_bindings: Vec<std::collections::HashMap<String, Value>> =
+                                    results
+                                        .iter()
+                                        .map(|result_tuple| {
+                                            all_vars
+                                                .iter()
+                                                .enumerate()
+                                                .filter_map(|(idx, var)| {
+                                                    result_tuple
+                                                        .get(idx)
+                                                        .map(|v| (var.clone(), v.clone()))
+                                                })
+                                                .collect()
+                                        })
+                                        .collect();
 
+                                // The update is atomic: every delete of every matched binding
+                                // is applied before any insert. Applying the bindings one by
+                                // one let a later binding delete a tuple an earlier binding had
+                                // just inserted (-r(A,B), +r(B,A) <- r(A,B) lost tuples,
+                                // depending on the order of the query results).
+                                for bindings in &all_bindings {
                                     for target in &op.deletes {
                                         let tuple_vals: Option<Vec<Value>> = target
                                             .args
@@ -3043,7 +3053,9 @@ impl QueryJob {
                                             deleted += count;
                                         }
                                     }
+                                }
 
+                                for bindings in &all_bindings {
                                     for target in &op.inserts {
                                         let tuple_vals: Option<Vec<Value>> = target
                                             .args
